@@ -172,9 +172,10 @@ class keymap(object):
 
     def encrypt(self, /, *args, **kwds):
         """use a non-flat scheme for generating a key"""
+        sorted_items = self._sorted(list(kwds.items()))
+        kwds = dict(sorted_items) # canonical order: call form must not leak into serialized keys
         key = (args, kwds) #XXX: pickles larger, but is simpler to unpack
         if self.typed:
-            sorted_items = self._sorted(list(kwds.items()))
             key += (self._tuple(self._type(v) for v in args), \
                     self._tuple(self._type(v) for (k,v) in sorted_items))
         # __chain__
